@@ -517,7 +517,7 @@ class Scheduler:
                 # with limit_denominator(10**9), the library's documented resolution)
                 tiny = [0, Fraction(1, 10**9), -Fraction(1, 10**9), 5e-10, -1e-12, Fraction(1, 10**6)]
                 v = (r.choice(tiny), r.choice(tiny))
-            forms = ["args", "tuple", "args", "tuple", "list", "iter", "gen", "point2d"]
+            forms = ["args", "tuple", "args", "tuple", "list", "iter", "gen", "point2d", "nparray"]
             return {"op": "move", "a": a, "v": _jp(v), "form": r.choice(forms)}
         if kind == "scale":
             # explored space: coordinates stay below 1e5 (the library's tolerances are absolute)
@@ -547,7 +547,7 @@ class Scheduler:
                 return {"op": "rotate", "a": a, "angle": J(ang), "degrees": ang not in (1e-10, -1e-12) or None}
             if r.random() < 0.5:
                 ang = r.choice([30, 45, 90, 180, 270, -60, 17, 360]) if r.random() < 0.5 else r.uniform(-360, 360)
-                return {"op": "rotate", "a": a, "angle": J(ang), "degrees": True}
+                return {"op": "rotate", "a": a, "angle": J(ang), "degrees": True, "dkw": r.random() < 0.5}
             ang = r.uniform(-math.tau, math.tau) if r.random() < 0.8 else r.choice([1, 2, 3, -1])
             deg = r.choice([None, False])
             return {"op": "rotate", "a": a, "angle": J(ang), "degrees": deg}
